@@ -146,12 +146,13 @@ class Own:
             return True
         if args is None:
             args = O.ARGS[name](rng, self.s)
+        own = O.own_view_content(self.s, args)      # (round 7) the call hands back an array obtained from the object: its content before the call
         r = call_impl(O.apply_op, self.s, name, args)
         if r[0] != 'ok':
             self.failed = (name, r[1]); return False
         a = r[1]
         self.ops.append([name, args]); self.mnames.append(O.model_name(name, self.s) if isinstance(self.s.values, np.ndarray) else name)
-        pl = O.passed_list(name, args)     # the array's content as the caller created it, before the call
+        pl = O.passed_list(name, args) if own is None else own     # the array's content as the caller created it, before the call
         self.held.append(a); self.how.append(name)
         self.snaps.append(snap(np.array(pl)) if a is not None and pl is not None else None); self.nchg.append(0)
         if name in O.VALUE_MUTATORS and self.passed_array:
@@ -521,6 +522,9 @@ def replay_case(ctx, payload):
     if 'history' in inp:
         kind = inp.get('ctor_kind', 'ndarray:float64')
         arg = list(inp['ctor_values']) if kind.startswith('list') else np.array(inp['ctor_values'], dtype=np.int64 if 'int64' in kind else float)
+        if 'ctor_view' in inp:        # (round 7) the constructor received an array obtained from ANOTHER signal object (its values / a view of them)
+            import eqsig
+            arg = O.own_view(eqsig.AccSignal(np.array(inp['ctor_donor_values'], dtype=float), inp['dt']), inp['ctor_view'])
         h = Own(report, ctx, inp.get('cls', 'AccSignal'), arg, inp['dt'], corr=False)
         for name, args in inp['history']:
             if not h.do(name, args if name not in h.quants else None):
@@ -745,4 +749,122 @@ _run_main_ct = run
 def run(ctx):
     _run_main_ct(ctx)
     extras_ctor(ctx)
+    ctx.flush()
+
+
+# ---- extras3 (hx_r7a, round 7): caller arrays that are VIEWS / THE VERY ARRAY obtained from a signal object ---------------------------------
+#
+# v = sig.values[i0:i1] (the trim idiom), v = sig.values, v = sig.values[::1], v = sig.values[::-1] handed back through reset_values / add_series /
+# add_signal of the SAME object, or handed to the constructor / reset_values / add_series of a SECOND object.  From that call on v is an array the
+# caller passed in (C05.a): no later operation on the receiving object may change it, the receiving object's values share no memory with it, and a
+# caller-side edit of v changes nothing in the receiving object.  A copy that is skipped for "my own buffer" / "a view" / "an array that does not
+# own its data" shows here and nowhere else.  (_c04_ops.ARGS draws such arguments in the random histories too; this is the directed part.)
+
+def extras3(ctx):
+    import eqsig
+    rng = ctx.rng
+    report = ctx._c05_report
+    rows = table_rows()
+    quick = ctx.tier == 'quick'
+    inplace = [r for r in INPLACE_OPS if r in rows]
+    follow = inplace + ['caller_write']
+    reads = ['pga', 'velocity', 'fa_spectrum', 'values', 'displacement']
+
+    def specs(n, full):
+        i0, i1 = rng.randint(1, n // 3), rng.randint(n - n // 3, n - 1)
+        out = ['self', [0, None, 1], [None, None, -1]]
+        return out if full else out + [[i0, i1, 1], [i0, None, 1], [0, i1, 1], [0, None, 2]]
+
+    def finish(h, tag, i):
+        ctx.hist('ownership3/' + tag)
+        ctx.count_case(('x3-own', tag, repr(h.start['ctor_values'][:6]), repr(h.ops)[:300]), True,
+                       sample={'class': h.cls, 'family': tag, 'history': [[o[0], {k: v for k, v in o[1].items() if k != 'donor_values'}] for o in h.ops]} if i < 1 else None)
+
+    # (a) handed back to the SAME object
+    i = 0
+    for rep in range(1 if quick else 6):
+        for op in ('reset_values', 'add_series', 'add_signal'):
+            if op not in rows:
+                continue
+            n = rng.choice([48, 64, 100])
+            for spec in specs(n, op != 'reset_values'):
+                for nxt in (follow if (not quick or op == 'reset_values') else follow[i % 3::3]):
+                    cls = 'Signal' if (nxt in ('caller_write', 'running_average') and rng.random() < 0.3) else 'AccSignal'
+                    h = run_history(ctx, report, cls, O.rec(rng, n), rng.choice([0.01, 0.02]), [rng.choice(reads)] if rng.random() < 0.5 and cls == 'AccSignal' else [], rng)
+                    if h is None:
+                        continue
+                    i += 1
+                    ok = h.do(op, {'own_view': spec})
+                    k = len(h.held) - 1
+                    for name, args in ((nxt, {'k': k, 'index': rng.randrange(len(h.held[k]))} if nxt == 'caller_write' else None),
+                                       ('caller_write', {'k': k, 'index': rng.randrange(len(h.held[k]))}), (rng.choice(follow[:-1]), None)):
+                        if not ok:
+                            break
+                        if name not in rows and name != 'caller_write':
+                            continue
+                        ok = h.do(name, args, rng=rng)
+                    if not ok:
+                        ctx.hist('op-raised:%s:%s' % h.failed)
+                    finish(h, 'own array handed back through %s' % op, i)
+        ctx.flush()
+    # (b) an array obtained from ONE object handed to ANOTHER: constructor, reset_values, add_series
+    for rep in range(1 if quick else 6):
+        n = rng.choice([48, 64, 100])
+        dt = rng.choice([0.01, 0.02])
+        for spec in specs(n, False):
+            donor_values = O.rec(rng, n)
+            donor = eqsig.AccSignal(donor_values, dt)
+            if rng.random() < 0.5:
+                gen._touch(donor)
+            v = O.own_view(donor, spec)
+            keep = np.array(donor.values, copy=True)
+            cls = 'Signal' if rng.random() < 0.25 else 'AccSignal'
+            h = Own.__new__(Own)
+            r = call_impl(Own.__init__, h, report, ctx, cls, v, dt, True)
+            if r[0] != 'ok':
+                ctx.hist('constructor-raised:' + r[1])
+                continue
+            h.start.update(ctor_kind='ndarray:float64 obtained from another signal object (ctor_view of its values)', ctor_donor_values=donor_values.tolist(), ctor_view=spec)
+            i += 1
+            ok = True
+            for name in [rng.choice(inplace)] + ['caller_write'] + [x for x in inplace if cls == 'AccSignal' or x == 'running_average'][:(2 if quick else 6)]:
+                if name not in rows and name != 'caller_write':
+                    continue
+                if cls == 'Signal' and name not in O.SIGNAL_METHODS and name != 'caller_write':
+                    continue
+                ok = h.do(name, {'k': 0, 'index': rng.randrange(len(v))} if name == 'caller_write' else None, rng=rng)
+                if not ok:
+                    ctx.hist('op-raised:%s:%s' % h.failed)
+                    break
+            # the donor object is untouched by everything the second object did (its buffer is what v views); only the caller's own write reached it
+            nw = sum(1 for o in h.ops if o[0] == 'caller_write')
+            diff = int(np.sum(np.asarray(donor.values) != keep))
+            report('C05.a operations on a signal object constructed from (a view of) another object\'s values change neither that array nor the other object', diff <= nw,
+                   None if diff <= nw else h.inputs(), {'donor samples changed': diff, 'caller writes': nw}, {'class': cls, 'operation': 'constructor(view)'})
+            finish(h, 'view of another object given to the constructor', i)
+            # reset_values / add_series / add_signal of a second object
+            for op in ('reset_values', 'add_series', 'add_signal'):
+                if op not in rows or (op != 'reset_values' and not (spec == 'self' or spec[2] in (1, -1) and spec[0] in (0, None) and spec[1] is None)):
+                    continue
+                h2 = run_history(ctx, report, 'AccSignal', O.rec(rng, n), dt, [], rng)
+                if h2 is None:
+                    continue
+                ok = h2.do(op, {'own_view': spec, 'donor_values': donor_values.tolist()})
+                k = len(h2.held) - 1
+                for name, args in ((rng.choice(inplace), None), ('caller_write', {'k': k, 'index': rng.randrange(len(h2.held[k]))}), (rng.choice(inplace), None)):
+                    if not ok:
+                        break
+                    ok = h2.do(name, args, rng=rng)
+                if not ok:
+                    ctx.hist('op-raised:%s:%s' % h2.failed)
+                finish(h2, 'view of another object handed to %s' % op, i)
+        ctx.flush()
+
+
+_run_main3 = run
+
+
+def run(ctx):
+    _run_main3(ctx)
+    extras3(ctx)
     ctx.flush()
